@@ -76,10 +76,19 @@ def judge(w, case, after_scratch=True):
     return viols, iv
 
 
+_scratch_memo = {}
+
+
 def scratch_view(rm):
-    reset_world()
-    m2 = construct(rm, "M")
-    return impl_view(m2)
+    key = repr([(p, rm.space(p).bases, sorted((n, c.src, c.cached) for n, c in rm.space(p).cells.items()),
+                 sorted((n, repr(v)) for n, v in rm.space(p).refs.items())) for p in rm.all_paths()])
+    if key not in _scratch_memo:
+        if len(_scratch_memo) > 20000:
+            _scratch_memo.clear()
+        reset_world()
+        m2 = construct(rm, "M")
+        _scratch_memo[key] = impl_view(m2)
+    return _scratch_memo[key]
 
 
 def run_history(root, hist, depth_ops=None):
@@ -114,18 +123,75 @@ def enabled(hist, info):
     return [op for op in struct_ops(rm, NAMES3) if valid_in_ref(rm, op)]
 
 
+def enabled_refs(hist, info):
+    """Restricted alphabet for the deeper exploration of reference roots: reference and base edits, new space
+    with at most one base."""
+    rm = info["rm"]
+    if info.get("rejected"):
+        return []
+    out = []
+    for op in struct_ops(rm, NAMES3, with_cached=False):
+        k = op["op"]
+        if k in ("set_ref", "del_ref", "add_bases", "remove_bases") or (k == "new_space" and len(op["bases"]) <= 1):
+            if valid_in_ref(rm, op):
+                out.append(op)
+    return out
+
+
+def enabled_wide(hist, info):
+    """Alphabet for the wide roots (S with three ordered bases): remove / add one or two bases of S at once,
+    member edits in the bases."""
+    rm = info["rm"]
+    if info.get("rejected"):
+        return []
+    out = []
+    cur = rm.space("S").bases
+    others = [b for b in ("A", "B", "C") if b not in cur]
+    for b in cur:
+        out.append({"op": "remove_bases", "sp": "S", "bases": [b]})
+    for pair in itertools.combinations(cur, 2):
+        out.append({"op": "remove_bases", "sp": "S", "bases": list(pair)})
+    for b in others:
+        out.append({"op": "add_bases", "sp": "S", "bases": [b]})
+    for pair in itertools.permutations(others, 2):
+        out.append({"op": "add_bases", "sp": "S", "bases": list(pair)})
+    for b in ("A", "B", "C"):
+        if "x" in rm.space(b).cells:
+            out.append({"op": "del_cells", "sp": b, "c": "x"})
+        else:
+            out.append({"op": "new_cells", "sp": b, "c": "x", "src": __import__("mxmc.structfam", fromlist=["xsrc"]).xsrc(b), "cached": True})
+        if "y" in rm.space(b).refs:
+            out.append({"op": "set_ref", "sp": b, "n": "y", "v": b + "2"})
+    return [op for op in out if valid_in_ref(rm, op)]
+
+
 def roots(tier):
     out = []
     dags = ordered_dags(NAMES3)
     subsets = [list(c) for k in range(0, 4) for c in itertools.combinations(NAMES3, k)]
+    ysets = subsets if tier == "thorough" else [[], ["A"], ["B", "C"], ["A", "B", "C"]]
     for bases in dags:
         for xs in subsets:
-            for ys in subsets:
+            for ys in ysets:
                 out.append({"bases": bases, "x": xs, "y": ys})
+    # deeper exploration of reference roots with a restricted alphabet (reference / base edits)
+    for bases in dags:
+        for ys in subsets:
+            if ys:
+                out.append({"bases": bases, "x": [], "y": ys, "mode": "refs"})
+    # wide roots: a space with three ordered direct bases
+    for perm in itertools.permutations(NAMES3):
+        for members in (NAMES3, ["A", "C"]):
+            out.append({"bases": {"A": [], "B": [], "C": [], "S": list(perm)}, "x": list(members),
+                        "y": list(members), "mode": "wide"})
     return out
 
 
 def depth_for(root, tier):
+    if root.get("mode") == "refs":
+        return 2 if tier == "quick" else 3
+    if root.get("mode") == "wide":
+        return 3 if tier == "quick" else 4
     cells_only = not root["y"]
     if tier == "quick":
         return 2 if cells_only and len(root["x"]) <= 1 else 1
@@ -138,7 +204,8 @@ def work_items(tier, seed):
 
 def run_item(item, tier):
     root = item["root"]
-    res = bfs.explore(lambda h: run_history(root, h), enabled, depth_for(root, tier))
+    en = {"refs": enabled_refs, "wide": enabled_wide}.get(root.get("mode"), enabled)
+    res = bfs.explore(lambda h: run_history(root, h), en, depth_for(root, tier))
     res.samples = [{"root": root, "history": h} for h in res.samples[:1]]
     return res.as_item_result()
 
